@@ -8,7 +8,7 @@
 (* File: [vs, tm, rows].  vs[i] = [s |-> version string, n |-> printed     *)
 (* Version.nearest(s)].  Each element of rows is judged independently      *)
 (* (tid selects it):                                                       *)
-(*  k = "pairs": i, js, rv, rs, h  -- for every j = js[x]: rv[x] / rs[x]   *)
+(*  k = "pairs": i, js, rv, rs, rt, ru, h -- for every j = js[x]: rv / rs   *)
 (*       the six results of Version(vs[i]) op Version(vs[j]) / op the      *)
 (*       string vs[j] as a base-3 number (digit k-1: 0 False, 1 True,      *)
 (*       2 raised), h[x] = 1 iff the two hashes are equal                  *)
@@ -63,6 +63,14 @@ PairJudge3(na, row, x, j, c, pd, differ) ==
       \cup
       (IF row.rs[x] = Code(c) THEN {}
        ELSE {<<"str_rhs_" \o OpNames[k], pd>> : k \in {q \in 1..6 : Digit(row.rs[x], q) # B(OpHolds(q, c))}})
+      \cup
+      \* the same string met as a freshly built object (its text, not its identity, is what is compared) ...
+      (IF row.rt[x] = Code(c) THEN {}
+       ELSE {<<"fresh_str_rhs_" \o OpNames[k], pd>> : k \in {q \in 1..6 : Digit(row.rt[x], q) # B(OpHolds(q, c))}})
+      \cup
+      \* ... and the same version as an instance of a behaviour-free subclass of Version (either side)
+      (IF row.ru[x] = Code(c) THEN {}
+       ELSE {<<"subclass_" \o OpNames[k], pd>> : k \in {q \in 1..6 : Digit(row.ru[x], q) # B(OpHolds(q, c))}})
       \cup (IF c = 0 /\ row.h[x] # 1 THEN {<<"hash", pd>>} ELSE {})
       \cup (IF c <= 0 /\ Cmp(na, Parse(vs[j].n)) > 0 THEN {<<"nearest_mono", pd>>} ELSE {}),
       c, IF c = 0 /\ differ THEN 1 ELSE 0>>
